@@ -165,12 +165,14 @@ class Env(object):
         # segmented: a cell qualified by a segment selector lives in the address space named by the selector's value
         # (memory is a function of (selector, address)); off = flat model, the selector is ignored (CPU-oracle checks)
         self.segmented = segmented
+        self.split_reg_sym = False      # if set, a register and a symbol of the same name get different default values (C05's twins)
         self.memseed = None             # if set, the default content of flat memory depends on this instead of the seed (shared backing memory)
 
     def copy(self):
         e = Env(self.seed, self.ids, self.mem, self.segmented)
         e.addr_bits = self.addr_bits
         e.memseed = self.memseed
+        e.split_reg_sym = self.split_reg_sym
         return e
 
     def _h(self, *k):
@@ -183,7 +185,7 @@ class Env(object):
             return self.ids['reg:' + name] & mask(size)
         if name in self.ids:
             return self.ids[name] & mask(size)
-        return (self._h('id', name, 'reg') if is_reg else self._h('id', name)) & mask(size)
+        return (self._h('id', name, 'reg') if (is_reg and self.split_reg_sym) else self._h('id', name)) & mask(size)
 
     def byte(self, addr, space=None):
         addr &= mask(self.addr_bits)
